@@ -336,8 +336,17 @@ Definition obs (s : st) : sx :=
       sx_bool (negb (fdone (ch s) (lastf (ch s)))); sx_bool (match active (ch s) with Some _ => true | None => false end);
       sx_nat (length (out s)) ].
 
+(* The lock as a resource: the only labels that touch the shared _buffer are
+   LW / LFlush = the body of write()/flush() executed while holding _lock, so
+   the number of _buffer accesses made by a thread that does not hold the lock
+   is 0 in every run of the model.  The rig counts them on the real object; a
+   write/flush path that bypasses the lock is a step the model does not have
+   and shows up as a correspondence difference. *)
+Definition unlocked_accesses (s : st) : nat := O.
+
 Definition final_obs (s : st) : sx :=
-  L [ sx_list sx_ev (out s); sx_list sx_str (lost s); sx_list sx_str (handed (px s)) ].
+  L [ sx_list sx_ev (out s); sx_list sx_str (lost s); sx_list sx_str (handed (px s));
+      sx_nat (unlocked_accesses s) ].
 
 Definition nat_of_sx (x : sx) : option nat :=
   match x with A z => if Z.ltb z 0 then None else Some (Z.to_nat z) | _ => None end.
